@@ -57,7 +57,9 @@ def _dataframe_to_dataset(
     dimension_name: Hashable,
 ) -> xarray.Dataset:
     """Convert a pandas DataFrame to an xarray Dataset."""
-    dataframe = dataframe.copy()
+    # The points extracted from the dataset are numbered by their position.
+    # Number the rows the same way, whatever labels the dataframe index carries.
+    dataframe = dataframe.reset_index(drop=True)
     dataframe.index.name = dimension_name
     dataset = dataframe.to_xarray()
     return dataset
